@@ -349,6 +349,9 @@ func (c *Client) GetRefs(prefixes, notPrefixes []string, opts ...RequestOption) 
 	}
 	m = map[string][]byte{}
 	for k, v := range rr.Refs {
+		if v == nil {
+			return nil, fmt.Errorf("invalid refs response: ref %q has no sum", k)
+		}
 		m[k] = (*v)[:]
 	}
 	return
